@@ -8,3 +8,5 @@ import RagcModel.Model.Varint
 import RagcModel.Model.Container
 import RagcModel.Model.Range
 import RagcModel.Model.LzDiff
+import RagcModel.Model.Packs
+import RagcModel.Model.Agc3
